@@ -629,7 +629,19 @@ func (l *Linter) check(
 		}
 	}
 
-	all = l.filterErrors(all, cfg.PathConfigs(path))
+	// Glob patterns in "paths" config are relative to the root of the project. `path` may be
+	// relative to the current working directory
+	pathInProject := path
+	if project != nil {
+		p := path
+		if !filepath.IsAbs(p) {
+			p = filepath.Join(l.cwd, p)
+		}
+		if r, err := filepath.Rel(project.RootDir(), absPath(p)); err == nil {
+			pathInProject = r
+		}
+	}
+	all = l.filterErrors(all, cfg.PathConfigs(pathInProject))
 
 	for _, err := range all {
 		err.Filepath = path // Populate filename in the error
